@@ -25,6 +25,12 @@ def r_id_order(ctx):
     inst = 'ids assigned in plain sorted() order of the collected tuples'
     ctx.tick()
     it = loop.iter
+    enum_idx = None
+    if isinstance(it, ast.Call) and isinstance(it.func, ast.Name) and it.func.id == 'enumerate' and len(it.args) == 1 and not it.keywords \
+            and isinstance(loop.target, ast.Tuple) and len(loop.target.elts) == 2 and isinstance(loop.target.elts[0], ast.Name):
+        # `for id, (..) in enumerate(sorted(X))`: the id is the position in the sorted list
+        enum_idx = loop.target.elts[0].id
+        it = it.args[0]
     ok_sorted = isinstance(it, ast.Call) and isinstance(it.func, ast.Name) and it.func.id == 'sorted' and len(it.args) == 1 and not it.keywords and isinstance(it.args[0], ast.Name)
     if not ok_sorted and isinstance(it, ast.Name):
         # in-place form: X.sort() (no key / reverse) as a top-level statement before the loop
@@ -43,26 +49,62 @@ def r_id_order(ctx):
     ctx.ok(inst, init.loc(loop), unparse(it))
     lst = it.args[0].id
     # every append to the list: tuple (ver, ordinal, name, obj) with ver from getattr(.., 'ver')
-    apps = [c for c in ast.walk(init.node) if isinstance(c, ast.Call) and isinstance(c.func, ast.Attribute) and c.func.attr == 'append'
-            and isinstance(c.func.value, ast.Name) and c.func.value.id == lst]
+    # the list may be a copy of another local (the value a collecting helper handed back)
+    lists = {lst}
+    grew = True
+    while grew:
+        grew = False
+        for d in ast.walk(init.node):
+            if isinstance(d, ast.Assign) and len(d.targets) == 1 and isinstance(d.targets[0], ast.Name) and d.targets[0].id in lists and isinstance(d.value, ast.Name) and d.value.id not in lists:
+                lists.add(d.value.id)
+                grew = True
+
+    def _tuples_of(e):
+        if isinstance(e, ast.Tuple):
+            return [e]
+        if isinstance(e, (ast.ListComp, ast.GeneratorExp)):
+            return _tuples_of(e.elt)
+        if isinstance(e, ast.List):
+            return [t_ for x in e.elts for t_ in _tuples_of(x)]
+        return []
+
+    class _App(object):
+        # one place where tuples enter the list: args[0] is the tuple, like the argument of an append call
+        def __init__(self, t_, site):
+            self.args = [t_]
+            self.lineno = getattr(site, 'lineno', 0)
+            self.site = site
+    apps = []
+    for c in ast.walk(init.node):
+        if isinstance(c, ast.Call) and isinstance(c.func, ast.Attribute) and isinstance(c.func.value, ast.Name) and c.func.value.id in lists and c.args:
+            if c.func.attr == 'append':
+                apps.append(_App(c.args[0], c))
+            elif c.func.attr == 'extend':
+                apps += [_App(t_, c) for t_ in _tuples_of(c.args[0])]
+        elif isinstance(c, ast.Assign) and len(c.targets) == 1 and isinstance(c.targets[0], ast.Name) and c.targets[0].id in lists:
+            apps += [_App(t_, c) for t_ in _tuples_of(c.value)]
+        elif isinstance(c, ast.AugAssign) and isinstance(c.target, ast.Name) and c.target.id in lists:
+            apps += [_App(t_, c) for t_ in _tuples_of(c.value)]
     ctx.require(len(apps) >= 2, 'collection of versioned methods (self and consumers) not found')
     ordinals = []
     for c in apps:
         inst = 'collected tuple `%s` is keyed by version first' % unparse(c.args[0])
         ctx.tick()
         t = c.args[0]
-        okv = isinstance(t, ast.Tuple) and len(t.elts) >= 3 and isinstance(t.elts[0], ast.Name)
-        if okv:
+
+        def _is_ver(e):
+            return isinstance(e, ast.Call) and unparse(e.func) == 'getattr' and len(e.args) == 2 and isinstance(e.args[1], ast.Constant) and e.args[1].value == 'ver'
+        okv = isinstance(t, ast.Tuple) and len(t.elts) >= 3 and (isinstance(t.elts[0], ast.Name) or _is_ver(t.elts[0]))
+        if okv and isinstance(t.elts[0], ast.Name):
             vname = t.elts[0].id
-            defs = [d for d in ast.walk(init.node) if isinstance(d, ast.Assign) and isinstance(d.targets[0], ast.Name) and d.targets[0].id == vname and d.lineno < c.lineno]
-            d = max(defs, key=lambda x: x.lineno) if defs else None
-            okv = d is not None and isinstance(d.value, ast.Call) and unparse(d.value.func) == 'getattr' and len(d.value.args) == 2 \
-                and isinstance(d.value.args[1], ast.Constant) and d.value.args[1].value == 'ver'
+            defs = [d for d in ast.walk(init.node) if isinstance(d, ast.Assign) and isinstance(d.targets[0], ast.Name) and d.targets[0].id == vname and U.ordr(init, d) < U.ordr(init, c.site)]
+            d = max(defs, key=lambda x: U.ordr(init, x)) if defs else None
+            okv = d is not None and _is_ver(d.value)
         if okv:
-            ctx.ok(inst, init.loc(c), 'first component is the method\'s `ver` attribute')
+            ctx.ok(inst, init.loc(c.site), 'first component is the method\'s `ver` attribute')
             ordinals.append(t.elts[1])
         else:
-            ctx.violation('SyncObj.__init__:id-tuple-not-version-first', init.loc(c), 'the sort key `%s` does not start with the method\'s version: adding a method with a '
+            ctx.violation('SyncObj.__init__:id-tuple-not-version-first', init.loc(c.site), 'the sort key `%s` does not start with the method\'s version: adding a method with a '
                           'higher version can renumber existing methods' % unparse(t), instance=inst)
     # ordinals: constant for self, enumerate-derived and distinct from it for consumers
     inst = 'consumer ordinal separates the object from its consumers deterministically'
@@ -86,9 +128,9 @@ def r_id_order(ctx):
             elif consts[0].value >= 0:
                 okc = False
     if okc:
-        ctx.ok(inst, init.loc(apps[0]), 'self: %s, consumers: %s' % (unparse(consts[0]), unparse(derived[0])))
+        ctx.ok(inst, init.loc(apps[0].site), 'self: %s, consumers: %s' % (unparse(consts[0]), unparse(derived[0])))
     else:
-        ctx.violation('SyncObj.__init__:consumer-ordinal', init.loc(apps[0]), 'consumer ordinals %s do not separate consumers from the object itself deterministically'
+        ctx.violation('SyncObj.__init__:consumer-ordinal', init.loc(apps[0].site), 'consumer ordinals %s do not separate consumers from the object itself deterministically'
                       % [unparse(o) for o in ordinals], instance=inst)
     # ids consecutive from 0
     inst = 'ids are consecutive from 0, one per method'
@@ -98,9 +140,11 @@ def r_id_order(ctx):
         if isinstance(x, ast.Assign) and isinstance(x.targets[0], ast.Subscript) and P.self_attr(x.targets[0].value, sn) == R.idToMethod:
             idvar = unparse(x.targets[0].slice)
     incs = [x for x in ast.walk(loop) if isinstance(x, ast.AugAssign) and unparse(x.target) == idvar]
-    init0 = [d for d in ast.walk(init.node) if isinstance(d, ast.Assign) and unparse(d.targets[0]) == idvar and d.lineno < loop.lineno]
+    init0 = [d for d in ast.walk(init.node) if isinstance(d, ast.Assign) and unparse(d.targets[0]) == idvar and U.ordr(init, d) < U.ordr(init, loop)]
     direct = [x for x in loop.body if x in incs]
-    if idvar and len(incs) == 1 and direct and isinstance(incs[0].op, ast.Add) and isinstance(incs[0].value, ast.Constant) and incs[0].value.value == 1 \
+    if enum_idx is not None and idvar == enum_idx and not incs and not any(isinstance(x, ast.Name) and x.id == enum_idx and isinstance(x.ctx, ast.Store) for st_ in loop.body for x in ast.walk(st_)):
+        ctx.ok(inst, init.loc(loop), 'the id is the enumerate() position in the sorted list')
+    elif idvar and len(incs) == 1 and direct and isinstance(incs[0].op, ast.Add) and isinstance(incs[0].value, ast.Constant) and incs[0].value.value == 1 \
             and init0 and isinstance(init0[-1].value, ast.Constant) and init0[-1].value.value == 0:
         ctx.ok(inst, init.loc(incs[0]), '%s = 0; ... %s += 1 once per iteration' % (idvar, idvar))
     else:
@@ -666,11 +710,19 @@ def r_attribution(ctx):
             def src_ok(name, seen=()):
                 if name in seen:
                     return True
-                defs = [d for d in ast.walk(f.node) if isinstance(d, ast.Assign) and isinstance(d.targets[0], ast.Name) and d.targets[0].id == name]
-                if not defs:
+                vals = [d.value for d in ast.walk(f.node) if isinstance(d, ast.Assign) and isinstance(d.targets[0], ast.Name) and d.targets[0].id == name]
+                # element-wise for `node, flag = (found, False)`
+                for d in ast.walk(f.node):
+                    if isinstance(d, ast.Assign) and isinstance(d.targets[0], (ast.Tuple, ast.List)) and isinstance(d.value, (ast.Tuple, ast.List)) \
+                            and len(d.targets[0].elts) == len(d.value.elts):
+                        for t_, v_ in zip(d.targets[0].elts, d.value.elts):
+                            if isinstance(t_, ast.Name) and t_.id == name:
+                                vals.append(v_)
+                    elif isinstance(d, ast.Assign) and isinstance(d.targets[0], (ast.Tuple, ast.List)) and any(isinstance(t_, ast.Name) and t_.id == name for t_ in d.targets[0].elts):
+                        return False
+                if not vals:
                     return False
-                for d in defs:
-                    v = d.value
+                for v in vals:
                     if isinstance(v, ast.Constant) and v.value is None:
                         continue
                     if isinstance(v, ast.Name) and v.id != msg and src_ok(v.id, seen + (name,)):
